@@ -234,6 +234,15 @@ func (c *Conn) RemoveJournal() error {
 	return err
 }
 
+// ChmodJournal is chmod / chown / utimes on the journal file (a SETATTR that carries no size): an operator's
+// chmod -R over the mount, or SQLite's own fchown() on a journal it opens as root.
+func (c *Conn) ChmodJournal() error {
+	if c.jn == nil {
+		return fmt.Errorf("journal not open")
+	}
+	return c.jn.Setattr(Ctx(), &fuse.SetattrRequest{Valid: fuse.SetattrMode, Mode: 0o640}, &fuse.SetattrResponse{})
+}
+
 // TruncateJournal is ftruncate(journal, size) (TRUNCATE-mode finalisation uses 0).
 func (c *Conn) TruncateJournal(size int64) error {
 	return c.jn.Setattr(Ctx(), &fuse.SetattrRequest{Valid: fuse.SetattrSize, Size: uint64(size)}, &fuse.SetattrResponse{})
